@@ -1348,3 +1348,1046 @@ func runEncodeCase(c *core.Ctx, t *tree, bucket string) {
 	}
 	c.Case(bucket, t.text(), t.Kind == '[' || t.Kind == '{' || t.Kind == 's')
 }
+
+// ---------------------------------------------------------------------------
+// Part 4: shredding schemas and files
+
+// sch is one (value, typed_value) group of a shredding schema.
+//
+//	N  no typed_value (top level only: an unshredded variant column)
+//	P  primitive typed_value (Prim)
+//	L  list (Elem)
+//	O  object (Names sorted, Fields)
+type sch struct {
+	Kind   byte
+	Prim   string // model text of the leaf type: b i<K> r<K> s y u d<K>:<prec>:<scale>
+	Plain  bool   // INT32/INT64 without annotation, decimal16 as BYTE_ARRAY
+	Elem   *sch
+	Names  []string
+	Fields []*sch
+}
+
+func (s *sch) text() string {
+	switch s.Kind {
+	case 'N':
+		return "N"
+	case 'P':
+		return "P" + s.Prim
+	case 'L':
+		return "L" + s.Elem.text()
+	}
+	var sb strings.Builder
+	sb.WriteString("O{")
+	for i, f := range s.Fields {
+		if i > 0 {
+			sb.WriteByte(',')
+		}
+		sb.WriteString(hex.EncodeToString([]byte(s.Names[i])))
+		sb.WriteByte('=')
+		sb.WriteString(f.text())
+	}
+	sb.WriteByte('}')
+	return sb.String()
+}
+
+// full text including the physical-type choice (for replays)
+func (s *sch) replayText() string {
+	switch s.Kind {
+	case 'P':
+		if s.Plain {
+			return "P" + s.Prim + "!"
+		}
+		return "P" + s.Prim
+	case 'L':
+		return "L" + s.Elem.replayText()
+	case 'O':
+		var sb strings.Builder
+		sb.WriteString("O{")
+		for i, f := range s.Fields {
+			if i > 0 {
+				sb.WriteByte(',')
+			}
+			sb.WriteString(hex.EncodeToString([]byte(s.Names[i])))
+			sb.WriteByte('=')
+			sb.WriteString(f.replayText())
+		}
+		sb.WriteByte('}')
+		return sb.String()
+	}
+	return "N"
+}
+
+func (p *parser) sch() *sch {
+	c := p.peek()
+	p.p++
+	switch c {
+	case 'N':
+		return &sch{Kind: 'N'}
+	case 'L':
+		return &sch{Kind: 'L', Elem: p.sch()}
+	case 'P':
+		b := p.p
+		for p.peek() != 0 && p.peek() != ',' && p.peek() != '}' && p.peek() != '!' {
+			p.p++
+		}
+		s := &sch{Kind: 'P', Prim: p.s[b:p.p]}
+		if p.peek() == '!' {
+			s.Plain = true
+			p.p++
+		}
+		return s
+	case 'O':
+		p.expect('{')
+		s := &sch{Kind: 'O'}
+		for p.peek() != '}' {
+			name := string(p.bytes())
+			p.expect('=')
+			s.Names = append(s.Names, name)
+			s.Fields = append(s.Fields, p.sch())
+			if p.peek() == ',' {
+				p.p++
+			}
+		}
+		p.p++
+		return s
+	}
+	panic("parse: schema")
+}
+
+func parseSch(s string) (r *sch, err error) {
+	defer func() {
+		if x := recover(); x != nil {
+			err = fmt.Errorf("%v", x)
+		}
+	}()
+	p := &parser{s: s}
+	r = p.sch()
+	return r, nil
+}
+
+// typedNode is the parquet node handed to parquet.ShreddedVariant.
+func (s *sch) typedNode() parquet.Node {
+	switch s.Kind {
+	case 'L':
+		return parquet.List(s.Elem.typedNode())
+	case 'O':
+		g := parquet.Group{}
+		for i, f := range s.Fields {
+			g[s.Names[i]] = f.typedNode()
+		}
+		return g
+	}
+	p := s.Prim
+	switch p[0] {
+	case 'b':
+		return parquet.Leaf(parquet.BooleanType)
+	case 's':
+		return parquet.String()
+	case 'y':
+		return parquet.Leaf(parquet.ByteArrayType)
+	case 'u':
+		return parquet.UUID()
+	case 'r':
+		if p[1] == '0' {
+			return parquet.Leaf(parquet.FloatType)
+		}
+		return parquet.Leaf(parquet.DoubleType)
+	case 'i':
+		switch p[1] {
+		case '0':
+			return parquet.Int(8)
+		case '1':
+			return parquet.Int(16)
+		case '2':
+			if s.Plain {
+				return parquet.Leaf(parquet.Int32Type)
+			}
+			return parquet.Int(32)
+		case '3':
+			if s.Plain {
+				return parquet.Leaf(parquet.Int64Type)
+			}
+			return parquet.Int(64)
+		case '4':
+			return parquet.Date()
+		case '5':
+			return parquet.TimestampAdjusted(parquet.Microsecond, true)
+		case '6':
+			return parquet.TimestampAdjusted(parquet.Microsecond, false)
+		case '7':
+			return parquet.TimeAdjusted(parquet.Microsecond, false)
+		case '8':
+			return parquet.TimestampAdjusted(parquet.Nanosecond, true)
+		default:
+			return parquet.TimestampAdjusted(parquet.Nanosecond, false)
+		}
+	case 'd':
+		var k, prec, scale int
+		fmt.Sscanf(p, "d%d:%x:%x", &k, &prec, &scale)
+		switch k {
+		case 0:
+			return parquet.Decimal(scale, prec, parquet.Int32Type)
+		case 1:
+			return parquet.Decimal(scale, prec, parquet.Int64Type)
+		default:
+			if s.Plain {
+				return parquet.Decimal(scale, prec, parquet.ByteArrayType)
+			}
+			return parquet.Decimal(scale, prec, parquet.FixedLenByteArrayType(16))
+		}
+	}
+	panic("typedNode: " + p)
+}
+
+func (g *gen) primType() *sch {
+	r := g.c.Rng
+	s := &sch{Kind: 'P', Plain: r.Intn(2) == 0}
+	switch r.Intn(9) {
+	case 0:
+		s.Prim = "b"
+	case 1, 2:
+		s.Prim = fmt.Sprintf("i%d", r.Intn(10))
+	case 3:
+		s.Prim = fmt.Sprintf("r%d", r.Intn(2))
+	case 4, 5:
+		s.Prim = "s"
+	case 6:
+		s.Prim = "y"
+	case 7:
+		s.Prim = "u"
+	default:
+		k := r.Intn(3)
+		prec := []int{1 + r.Intn(9), 10 + r.Intn(9), 1 + r.Intn(38)}[k]
+		scale := []int{0, 2, 2, 2, 3, 9}[r.Intn(6)]
+		if scale > prec {
+			scale = prec
+		}
+		s.Prim = fmt.Sprintf("d%d:%x:%x", k, prec, scale)
+	}
+	return s
+}
+
+func (g *gen) schema(depth int) *sch {
+	r := g.c.Rng
+	if depth > 0 {
+		switch r.Intn(8) {
+		case 0, 1:
+			return &sch{Kind: 'L', Elem: g.schema(depth - 1)}
+		case 2, 3, 4:
+			s := &sch{Kind: 'O'}
+			names := append([]string{}, g.names...)
+			sort.Strings(names)
+			for _, n := range names {
+				if r.Intn(2) == 0 {
+					s.Names = append(s.Names, n)
+					s.Fields = append(s.Fields, g.schema(depth-1))
+				}
+			}
+			if len(s.Names) == 0 {
+				s.Names = []string{names[r.Intn(len(names))]}
+				s.Fields = []*sch{g.schema(depth - 1)}
+			}
+			return s
+		}
+	}
+	return g.primType()
+}
+
+// valueFor generates a value biased towards the shape of the schema (exact
+// matches, partial matches, mismatches).
+func (g *gen) valueFor(s *sch, depth int, native bool) *tree {
+	r := g.c.Rng
+	if r.Intn(5) == 0 || depth == 0 {
+		return g.tree(depth, native)
+	}
+	switch s.Kind {
+	case 'L':
+		t := &tree{Kind: '['}
+		for i, n := 0, r.Intn(4); i < n; i++ {
+			t.Elems = append(t.Elems, g.valueFor(s.Elem, depth-1, native))
+		}
+		return t
+	case 'O':
+		t := &tree{Kind: '{'}
+		for i, n := range s.Names {
+			if r.Intn(4) > 0 {
+				t.Names = append(t.Names, n)
+				t.Elems = append(t.Elems, g.valueFor(s.Fields[i], depth-1, native))
+			}
+		}
+		for i, n := 0, r.Intn(3); i < n; i++ {
+			nm := g.name()
+			dup := false
+			for _, x := range t.Names {
+				dup = dup || x == nm
+			}
+			if !dup {
+				t.Names = append(t.Names, nm)
+				t.Elems = append(t.Elems, g.tree(depth-1, native))
+			}
+		}
+		r.Shuffle(len(t.Names), func(i, j int) {
+			t.Names[i], t.Names[j] = t.Names[j], t.Names[i]
+			t.Elems[i], t.Elems[j] = t.Elems[j], t.Elems[i]
+		})
+		return t
+	case 'P':
+		for tries := 0; tries < 40; tries++ {
+			t := g.prim()
+			if native && !t.native() {
+				continue
+			}
+			if primMatches(s.Prim, t) {
+				if t.Kind == 'd' && r.Intn(2) == 0 {
+					var k, prec, scale int
+					fmt.Sscanf(s.Prim, "d%d:%x:%x", &k, &prec, &scale)
+					t.Scale = byte(scale)
+					if t.K < 2 && r.Intn(2) == 0 {
+						t.I %= 1000
+					}
+				}
+				return t
+			}
+		}
+	}
+	return g.tree(depth, native)
+}
+
+func primMatches(p string, t *tree) bool {
+	switch p[0] {
+	case 'b':
+		return t.Kind == 't' || t.Kind == 'f'
+	case 's':
+		return t.Kind == 's'
+	case 'y':
+		return t.Kind == 'b'
+	case 'u':
+		return t.Kind == 'u'
+	case 'r':
+		return t.Kind == 'r' && t.K == int(p[1]-'0')
+	case 'i':
+		return t.Kind == 'i' && t.K == int(p[1]-'0')
+	case 'd':
+		return t.Kind == 'd' && t.K == int(p[1]-'0')
+	}
+	return false
+}
+
+type rawVariant struct {
+	Metadata []byte `parquet:"metadata"`
+	Value    []byte `parquet:"value"`
+}
+type rowAny struct {
+	ID  int32 `parquet:"id"`
+	Var any   `parquet:"var,variant"`
+}
+type rowRawP struct {
+	ID  int32       `parquet:"id"`
+	Var *rawVariant `parquet:"var,variant"`
+}
+type rowRaw struct {
+	ID  int32      `parquet:"id"`
+	Var rawVariant `parquet:"var,variant"`
+}
+
+// fileCase is one file: a variant column (shredded or not), rows, how it is
+// written.  Rows[i] == "" is a null row (optional column only).
+type fileCase struct {
+	Mode     string   `json:"mode"` // "file"
+	Schema   string   `json:"schema"`
+	Optional bool     `json:"optional"`
+	PageV    int      `json:"page_version"`
+	Write    string   `json:"write"` // typed | raw
+	Path     string   `json:"path"`  // writer | buffer | rows
+	PageBuf  int      `json:"page_buffer"`
+	Rows     []string `json:"rows"`
+}
+
+func (fc *fileCase) build() (s *sch, schema *parquet.Schema, rows []*tree, err error) {
+	defer func() {
+		if r := recover(); r != nil {
+			err = fmt.Errorf("schema construction panicked: %v", r)
+		}
+	}()
+	if s, err = parseSch(fc.Schema); err != nil {
+		return
+	}
+	var node parquet.Node
+	if s.Kind == 'N' {
+		node = parquet.Variant()
+	} else if node, err = parquet.ShreddedVariant(s.typedNode()); err != nil {
+		return
+	}
+	if fc.Optional {
+		node = parquet.Optional(node)
+	}
+	schema = parquet.NewSchema("table", parquet.Group{"id": parquet.Int(32), "var": node})
+	for _, r := range fc.Rows {
+		if r == "" {
+			rows = append(rows, nil)
+			continue
+		}
+		t, e := parseTree(r)
+		if e != nil {
+			err = e
+			return
+		}
+		rows = append(rows, t)
+	}
+	return
+}
+
+func (fc *fileCase) write(schema *parquet.Schema, rows []*tree) (data []byte, err error) {
+	defer func() {
+		if r := recover(); r != nil {
+			err = fmt.Errorf("panic: %v", r)
+		}
+	}()
+	in := make([]rowAny, len(rows))
+	for i, t := range rows {
+		in[i].ID = int32(i)
+		if t == nil {
+			continue
+		}
+		if fc.Write == "typed" {
+			in[i].Var = t.goAny()
+		} else {
+			meta, val, e := goEncode(t)
+			if e != nil {
+				return nil, e
+			}
+			in[i].Var = rawVariant{Metadata: meta, Value: val}
+		}
+	}
+	buf := new(bytes.Buffer)
+	opts := []parquet.WriterOption{schema, parquet.DataPageVersion(fc.PageV)}
+	if fc.PageBuf > 0 {
+		opts = append(opts, parquet.PageBufferSize(fc.PageBuf))
+	}
+	w := parquet.NewGenericWriter[rowAny](buf, opts...)
+	switch fc.Path {
+	case "buffer":
+		b := parquet.NewGenericBuffer[rowAny](schema)
+		if _, err = b.Write(in); err != nil {
+			return nil, err
+		}
+		if _, err = w.WriteRowGroup(b); err != nil {
+			return nil, err
+		}
+	case "rows":
+		dec := make([]parquet.Row, len(in))
+		for i := range in {
+			dec[i] = schema.Deconstruct(nil, &in[i])
+		}
+		if _, err = w.WriteRows(dec); err != nil {
+			return nil, err
+		}
+	default:
+		for i := 0; i < len(in); {
+			k := 1 + (i*7+3)%4
+			if i+k > len(in) {
+				k = len(in) - i
+			}
+			if _, err = w.Write(in[i : i+k]); err != nil {
+				return nil, err
+			}
+			i += k
+		}
+	}
+	if err = w.Close(); err != nil {
+		return nil, err
+	}
+	return buf.Bytes(), nil
+}
+
+func leafText(v parquet.Value) string {
+	switch v.Kind() {
+	case parquet.Boolean:
+		if v.Boolean() {
+			return "b1"
+		}
+		return "b0"
+	case parquet.Int32:
+		return "i" + zhex(int64(v.Int32()))
+	case parquet.Int64:
+		return "l" + zhex(v.Int64())
+	case parquet.Float:
+		return fmt.Sprintf("e%x", math.Float32bits(v.Float()))
+	case parquet.Double:
+		return fmt.Sprintf("g%x", math.Float64bits(v.Double()))
+	default:
+		return "x" + hex.EncodeToString(v.ByteArray())
+	}
+}
+
+// fileColumns returns, per row, the non-null values of every leaf column of
+// the variant group (column 0 is id).
+func fileColumns(data []byte, nrows int) (out [][][]string, err error) {
+	defer func() {
+		if r := recover(); r != nil {
+			err = fmt.Errorf("panic: %v", r)
+		}
+	}()
+	f, err := parquet.OpenFile(bytes.NewReader(data), int64(len(data)))
+	if err != nil {
+		return nil, err
+	}
+	ncols := len(f.Schema().Columns())
+	for _, rg := range f.RowGroups() {
+		rows := rg.Rows()
+		for {
+			buf := make([]parquet.Row, 16)
+			n, e := rows.ReadRows(buf)
+			for _, row := range buf[:n] {
+				cols := make([][]string, ncols-1)
+				for _, v := range row {
+					if ci := v.Column(); ci >= 1 && !v.IsNull() {
+						cols[ci-1] = append(cols[ci-1], leafText(v))
+					}
+				}
+				out = append(out, cols)
+			}
+			if e != nil {
+				if e != io.EOF {
+					rows.Close()
+					return nil, e
+				}
+				break
+			}
+			if n == 0 {
+				break
+			}
+		}
+		rows.Close()
+	}
+	if len(out) != nrows {
+		return nil, fmt.Errorf("file has %d rows, %d written", len(out), nrows)
+	}
+	return out, nil
+}
+
+func colsText(cols [][]string) string {
+	parts := make([]string, len(cols))
+	for i, c := range cols {
+		if len(c) == 0 {
+			parts[i] = "_"
+		} else {
+			parts[i] = strings.Join(c, ",")
+		}
+	}
+	return strings.Join(parts, ";")
+}
+
+func protect(f func() error) (err error) {
+	defer func() {
+		if r := recover(); r != nil {
+			err = fmt.Errorf("panic: %v", r)
+		}
+	}()
+	return f()
+}
+
+// checkFile writes the file and reads it back in the three forms.
+func checkFile(c *core.Ctx, fc *fileCase) {
+	s, schema, rows, err := fc.build()
+	if err != nil {
+		c.Violation("schema-rejected", "a shredding schema of the supported class is rejected: "+err.Error(), fc)
+		return
+	}
+	data, err := fc.write(schema, rows)
+	if err != nil {
+		c.Violation("file-write-error", fmt.Sprintf("writing %s/%s: %v", fc.Write, fc.Path, err), fc)
+		return
+	}
+	n := len(rows)
+	want := make([]string, n)
+	for i, t := range rows {
+		if fc.Write == "typed" && fc.Optional && t != nil && t.Kind == 'n' {
+			rows[i], t = nil, nil // the typed API writes a nil value of an optional column as a null row
+		}
+		if t != nil {
+			want[i] = t.canonText()
+		} else if !fc.Optional {
+			want[i] = "n" // a nil value in a required variant column is variant null
+		}
+	}
+	size := int64(len(data))
+	bad := func(class, form string, i int, got string) {
+		c.Violation(class, fmt.Sprintf("schema %s optional=%v v%d %s/%s write, %s read: row %d reads back as %s, written %s",
+			fc.Schema, fc.Optional, fc.PageV, fc.Write, fc.Path, form, i, core.Trunc(got, 300), core.Trunc(want[i], 300)), fc)
+	}
+	// typed read
+	if err := protect(func() error {
+		r := parquet.NewGenericReader[rowAny](bytes.NewReader(data), schema)
+		defer r.Close()
+		out := make([]rowAny, n)
+		if k, err := r.Read(out); k != n && err != nil && err != io.EOF {
+			return err
+		} else if k != n {
+			return fmt.Errorf("read %d of %d rows", k, n)
+		}
+		for i := range out {
+			exp := "nil"
+			if rows[i] != nil {
+				exp = anyText(rows[i].goAny())
+			}
+			if got := anyText(out[i].Var); got != exp || out[i].ID != int32(i) {
+				c.Violation("typed-read-differs", fmt.Sprintf("schema %s optional=%v v%d %s/%s write, typed read: row %d reads back as %s, want %s",
+					fc.Schema, fc.Optional, fc.PageV, fc.Write, fc.Path, i, core.Trunc(got, 300), core.Trunc(exp, 300)), fc)
+				return nil
+			}
+		}
+		return nil
+	}); err != nil {
+		c.Violation("typed-read-error", err.Error(), fc)
+	}
+	decodeRaw := func(form string, i int, meta, val []byte, null bool) bool {
+		if null || (len(meta) == 0 && len(val) == 0) {
+			if want[i] != "" {
+				bad("raw-read-differs", form, i, "null")
+				return false
+			}
+			return true
+		}
+		t, err := goDecode(meta, val)
+		if err != nil {
+			bad("raw-read-differs", form, i, "undecodable bytes ("+err.Error()+")")
+			return false
+		}
+		if got := t.canonText(); got != want[i] {
+			bad("raw-read-differs", form, i, got)
+			return false
+		}
+		if c.HasOracle() && want[i] != "" {
+			if back := c.Ask("c19.decode " + core.Hexs(meta) + " " + core.Hexs(val)); back != want[i] {
+				c.Mismatch("corr:C19.decode-readback", form+" read bytes", want[i], back, fc)
+				return false
+			}
+		}
+		return true
+	}
+	// raw read through the file's own schema
+	if err := protect(func() error {
+		r := parquet.NewGenericReader[rowRawP](bytes.NewReader(data), schema)
+		defer r.Close()
+		out := make([]rowRawP, n)
+		if k, err := r.Read(out); k != n && err != nil && err != io.EOF {
+			return err
+		} else if k != n {
+			return fmt.Errorf("read %d of %d rows", k, n)
+		}
+		for i := range out {
+			var m, v []byte
+			if out[i].Var != nil {
+				m, v = out[i].Var.Metadata, out[i].Var.Value
+			}
+			if !decodeRaw("raw", i, m, v, out[i].Var == nil) {
+				return nil
+			}
+		}
+		return nil
+	}); err != nil {
+		c.Violation("raw-read-error", err.Error(), fc)
+	}
+	// conversion to an unshredded variant column (convert_variant.go)
+	if err := protect(func() error {
+		out, err := parquet.Read[rowRaw](bytes.NewReader(data), size)
+		if err != nil {
+			return err
+		}
+		if len(out) != n {
+			return fmt.Errorf("read %d of %d rows", len(out), n)
+		}
+		for i := range out {
+			if !decodeRaw("convert-to-unshredded", i, out[i].Var.Metadata, out[i].Var.Value, false) {
+				return nil
+			}
+		}
+		return nil
+	}); err != nil {
+		c.Violation("convert-read-error", err.Error(), fc)
+	}
+	// what the file stores == the model's shredding of the value
+	if c.HasOracle() {
+		cols, err := fileColumns(data, n)
+		if err != nil {
+			c.Violation("file-scan-error", err.Error(), fc)
+			return
+		}
+		for i, t := range rows {
+			if t == nil {
+				if fc.Optional {
+					if got := colsText(cols[i]); strings.Trim(got, "_;") != "" {
+						c.Violation("null-row-has-values", "a null row stores values: "+got, fc)
+					}
+					continue
+				}
+				t = &tree{Kind: 'n'}
+			}
+			in := t
+			if fc.Write == "raw" {
+				if s.Kind != 'N' {
+					in = t.canon() // the shredded raw write decodes the bytes: fields arrive in name order
+				} // an unshredded column stores the given bytes unchanged
+			} else if t.maxFields() > 1 {
+				continue // map iteration order decides the dictionary order
+			}
+			var model string
+			if s.Kind == 'N' {
+				ans := strings.Split(c.Ask("c19.encode "+in.text()), " ")
+				model = strings.Join(ans, ";")
+			} else {
+				ans := strings.Split(c.Ask("c19.shred "+s.text()+" "+in.text()), " ")
+				if len(ans) != 3 {
+					c.Mismatch("corr:C19.shred", "c19.shred "+s.text()+" "+in.text(), colsText(cols[i]), strings.Join(ans, " "), fc)
+					return
+				}
+				model = ans[0] + ";" + ans[2]
+				// the model reader on the model writer's fragment
+				if back := c.Ask("c19.reconstruct " + s.text() + " " + ans[0] + " " + ans[1]); back != t.canonText() {
+					bk := back
+					if bt, e := parseTree(back); e == nil {
+						bk = bt.canonText()
+					}
+					if bk != t.canonText() {
+						c.Mismatch("corr:C19.reconstruct", "c19.reconstruct of c19.shred", t.canonText(), back, fc)
+						return
+					}
+				}
+			}
+			if got := colsText(cols[i]); got != model {
+				c.Mismatch("corr:C19.shred", "row "+fmt.Sprint(i)+": c19.shred "+s.text()+" "+in.text(), got, model, fc)
+				return
+			}
+		}
+	}
+}
+
+func shrinkFile(c *core.Ctx, fc *fileCase) *fileCase {
+	fails := func(x *fileCase) bool { return c.Probe(func() { checkFile(c, x) }) }
+	cur := *fc
+	// single rows first
+	for i := range fc.Rows {
+		t := cur
+		t.Rows = []string{fc.Rows[i]}
+		if fails(&t) {
+			cur = t
+			break
+		}
+	}
+	for changed := true; changed && len(cur.Rows) > 1; {
+		changed = false
+		for i := range cur.Rows {
+			t := cur
+			t.Rows = append(append([]string{}, cur.Rows[:i]...), cur.Rows[i+1:]...)
+			if fails(&t) {
+				cur, changed = t, true
+				break
+			}
+		}
+	}
+	for _, simpler := range []func(*fileCase){
+		func(x *fileCase) { x.Optional = false },
+		func(x *fileCase) { x.Path = "writer" },
+		func(x *fileCase) { x.PageBuf = 0 },
+		func(x *fileCase) { x.PageV = 1 },
+	} {
+		t := cur
+		simpler(&t)
+		if fails(&t) {
+			cur = t
+		}
+	}
+	for i, r := range cur.Rows {
+		if r == "" {
+			continue
+		}
+		t0, err := parseTree(r)
+		if err != nil {
+			continue
+		}
+		min := shrinkTree(t0, func(x *tree) bool {
+			if cur.Write == "typed" && !x.native() {
+				return false
+			}
+			t := cur
+			t.Rows = append([]string{}, cur.Rows...)
+			t.Rows[i] = x.text()
+			return fails(&t)
+		})
+		cur.Rows = append([]string{}, cur.Rows...)
+		cur.Rows[i] = min.text()
+	}
+	return &cur
+}
+
+func runFileCase(c *core.Ctx, fc *fileCase, bucket string) {
+	if c.Probe(func() { checkFile(c, fc) }) {
+		checkFile(c, shrinkFile(c, fc))
+	}
+	key, _ := json.Marshal(fc)
+	c.Case(bucket, string(key), true)
+}
+
+// ---------------------------------------------------------------------------
+// Part 5: driver, replay, vm_compute sample
+
+func coqBytes(b []byte) string { return core.CoqBytes(b) }
+
+var coqIntKinds = []string{"I8", "I16", "I32", "I64", "IDate", "ITs", "ITsNtz", "ITime", "ITsNs", "ITsNtzNs"}
+
+func (t *tree) coq() string {
+	switch t.Kind {
+	case 'n':
+		return "VNull"
+	case 't':
+		return "(VBool true)"
+	case 'f':
+		return "(VBool false)"
+	case 'i':
+		return fmt.Sprintf("(VInt %s %s)", coqIntKinds[t.K], core.CoqZ(t.I))
+	case 'r':
+		return fmt.Sprintf("(VFlt %s %d%%N)", []string{"F32", "F64"}[t.K], t.U)
+	case 'd':
+		z := big.NewInt(t.I)
+		if t.K == 2 {
+			z = d16Big(t.D)
+		}
+		return fmt.Sprintf("(VDec %s %d%%N (%s)%%Z)", []string{"D4", "D8", "D16"}[t.K], t.Scale, z.String())
+	case 'b':
+		return "(VBinary " + coqBytes(t.D) + ")"
+	case 's':
+		return "(VString " + coqBytes(t.D) + ")"
+	case 'u':
+		return "(VUuid " + coqBytes(t.D) + ")"
+	case '[':
+		es := make([]string, len(t.Elems))
+		for i, e := range t.Elems {
+			es[i] = e.coq()
+		}
+		return "(VArray " + core.CoqList(es) + ")"
+	default:
+		es := make([]string, len(t.Elems))
+		for i, e := range t.Elems {
+			es[i] = "(" + coqBytes([]byte(t.Names[i])) + ", " + e.coq() + ")"
+		}
+		return "(VObject " + core.CoqList(es) + ")"
+	}
+}
+
+func (s *sch) coq() string {
+	switch s.Kind {
+	case 'N':
+		return "SNone"
+	case 'L':
+		return "(SList " + s.Elem.coq() + ")"
+	case 'O':
+		es := make([]string, len(s.Fields))
+		for i, f := range s.Fields {
+			es[i] = "(" + coqBytes([]byte(s.Names[i])) + ", " + f.coq() + ")"
+		}
+		return "(SObj " + core.CoqList(es) + ")"
+	}
+	p := s.Prim
+	switch p[0] {
+	case 'b':
+		return "(SPrim PTBool)"
+	case 's':
+		return "(SPrim PTString)"
+	case 'y':
+		return "(SPrim PTBinary)"
+	case 'u':
+		return "(SPrim PTUuid)"
+	case 'r':
+		return "(SPrim (PTFlt " + []string{"F32", "F64"}[p[1]-'0'] + "))"
+	case 'i':
+		return "(SPrim (PTInt " + coqIntKinds[p[1]-'0'] + "))"
+	}
+	var k, prec, scale int
+	fmt.Sscanf(p, "d%d:%x:%x", &k, &prec, &scale)
+	return fmt.Sprintf("(SPrim (PTDec %s %d%%Z %d%%Z))", []string{"D4", "D8", "D16"}[k], prec, scale)
+}
+
+func runC19(c *core.Ctx) {
+	c.Res.Rule = "variant value trees generated at random (depth <= 5, every primitive kind with edge values, strings of length 0,1,62..65,80 with multi-byte UTF-8, names from a small pool shared with the schemas plus empty/long/unicode names) and boundary trees (arrays/objects of 0,1,2,254..257 elements; container payloads of exactly 254..257 and 65534..65537 bytes with 1..3 elements; dictionaries of 255..300 names followed by small objects using the highest ids; dictionary bytes of 254..257 and 65535/65536; sorted and unsorted dictionaries); each tree: variant.Encode bytes == model bytes, Decode(Encode(v)) == v, model decoder on Go's bytes == v, Marshal/Unmarshal of the Go value, and random conforming non-canonical encodings (wider offsets, is_large, long-form strings, shuffled object values, permuted dictionaries) through both decoders. Files: random shredding schemas (all typed leaves, objects, lists, nesting <= 3) and unshredded columns x optional/required x page v1/v2 x typed/raw write x writer/buffer/rows plumbing, several rows with nulls; every row read back typed, raw and converted to unshredded must equal the written value, and the stored leaf columns must equal the model's shredding. Non-trivial = container or string at the root (encode cases), every file case; distinct by tree / case text."
+	g := &gen{c: c, names: []string{"a", "b", "c", "d", "e"}}
+	var vmEnc, vmShred []string
+
+	addVmEnc := func(t *tree) {
+		if len(vmEnc) >= 120 || t.size() > 40 || len(t.text()) > 1500 {
+			return
+		}
+		meta, val, err := goEncode(t)
+		if err != nil {
+			return
+		}
+		vmEnc = append(vmEnc, fmt.Sprintf("(%s, %s, %s)", t.coq(), coqBytes(meta), coqBytes(val)))
+	}
+
+	// corpus: the boundary trees
+	for i, t := range g.boundaries() {
+		runEncodeCase(c, t, "encode/boundary")
+		checkAltDecode(c, t)
+		if i%9 == 0 {
+			addVmEnc(t)
+		}
+	}
+	c.Sample(map[string]string{"tree": "{62=[i0:-1,s6869,n],61={62=t},63=d0:2:3039}", "syntax": "oracle/c19.ml"})
+
+	// duplicate names: outside the property; both decoders must agree on rejection
+	for _, t := range []*tree{
+		{Kind: '{', Names: []string{"a", "a"}, Elems: []*tree{{Kind: 'n'}, {Kind: 't'}}},
+		{Kind: '{', Names: []string{"b", "a", "b"}, Elems: []*tree{{Kind: 'n'}, {Kind: 't'}, {Kind: 'f'}}},
+	} {
+		meta, val, err := goEncode(t)
+		if err != nil {
+			continue
+		}
+		_, derr := goDecode(meta, val)
+		if c.HasOracle() {
+			back := c.Ask("c19.decode " + core.Hexs(meta) + " " + core.Hexs(val))
+			if (derr != nil) != (back == "NONE") {
+				c.Mismatch("corr:C19.decode-duplicate-names", t.text(), fmt.Sprint(derr), back, nil)
+			}
+		}
+		c.Case("decode/duplicate-names", t.text(), false)
+	}
+
+	// random trees
+	nRand := c.N(2500, 40000)
+	for i := 0; i < nRand; i++ {
+		t := g.tree(1+c.Rng.Intn(5), c.Rng.Intn(3) == 0)
+		runEncodeCase(c, t, fmt.Sprintf("encode/random/%c", t.Kind))
+		if i%3 == 0 {
+			checkAltDecode(c, t)
+			c.Case("decode/conforming", "alt:"+t.text(), t.Kind == '[' || t.Kind == '{')
+		}
+		if i < 3 {
+			c.Sample(map[string]string{"tree": t.text()})
+		}
+		if i%20 == 0 {
+			addVmEnc(t)
+		}
+	}
+
+	// larger thresholds on the implementation alone (model lists of 16M bytes are too slow)
+	if !c.Quick() {
+		for _, target := range []int{1<<24 - 1, 1 << 24, 1<<24 + 1} {
+			d := make([]byte, target-5)
+			t := &tree{Kind: '[', Elems: []*tree{{Kind: 'b', D: d}}}
+			meta, val, err := goEncode(t)
+			if err != nil {
+				c.Violation("encode-error", err.Error(), map[string]any{"mode": "big", "payload": target})
+				continue
+			}
+			got, err := goDecode(meta, val)
+			if err != nil || got.Kind != '[' || len(got.Elems) != 1 || !bytes.Equal(got.Elems[0].D, d) {
+				c.Violation("decode-of-encode-differs", fmt.Sprintf("array with a payload of %d bytes does not decode back (%v)", target, err), map[string]any{"mode": "big", "payload": target})
+			}
+			c.Case("encode/payload-2^24", fmt.Sprint(target), true)
+		}
+	}
+
+	// files
+	nFiles := c.N(260, 3000)
+	for i := 0; i < nFiles; i++ {
+		var s *sch
+		if c.Rng.Intn(8) == 0 {
+			s = &sch{Kind: 'N'}
+		} else {
+			s = g.schema(c.Rng.Intn(4))
+		}
+		fc := &fileCase{Mode: "file", Schema: s.replayText(), Optional: c.Rng.Intn(2) == 0, PageV: 1 + c.Rng.Intn(2),
+			Write: []string{"typed", "raw", "raw"}[c.Rng.Intn(3)], Path: []string{"writer", "writer", "buffer", "rows"}[c.Rng.Intn(4)]}
+		if c.Rng.Intn(3) == 0 {
+			fc.PageBuf = 64 + c.Rng.Intn(400)
+		}
+		nrows := 1 + c.Rng.Intn(8)
+		for r := 0; r < nrows; r++ {
+			if c.Rng.Intn(7) == 0 {
+				fc.Rows = append(fc.Rows, "")
+				continue
+			}
+			t := g.valueFor(s, 1+c.Rng.Intn(4), fc.Write == "typed")
+			fc.Rows = append(fc.Rows, t.text())
+			if len(vmShred) < 60 && s.Kind != 'N' && t.size() <= 25 && len(t.text()) < 800 {
+				vmShred = append(vmShred, fmt.Sprintf("(%s, %s)", s.coq(), t.coq()))
+			}
+		}
+		runFileCase(c, fc, fmt.Sprintf("file/%c/%s", s.Kind, fc.Write))
+		if i < 2 {
+			c.Sample(fc)
+		}
+	}
+	// boundary values through a shredded file: a partially shredded object holding large values
+	for _, t := range g.boundaries() {
+		if t.size() > 400 || c.Rng.Intn(3) > 0 {
+			continue
+		}
+		s := &sch{Kind: 'O', Names: []string{"a", "k000", "z"}, Fields: []*sch{{Kind: 'P', Prim: "y"}, {Kind: 'P', Prim: "i0"}, {Kind: 'L', Elem: &sch{Kind: 'P', Prim: "s"}}}}
+		fc := &fileCase{Mode: "file", Schema: s.replayText(), PageV: 1 + c.Rng.Intn(2), Write: "raw", Path: "writer", Rows: []string{t.text()}}
+		runFileCase(c, fc, "file/boundary")
+	}
+
+	// vm_compute sample
+	c.Vm("From Coq Require Import List ZArith NArith Bool.\nFrom PQ Require Import Base.Bytes Variant.Model Variant.Shred.\nImport ListNotations.\nOpen Scope N_scope.")
+	c.Vm("Fixpoint veqb (a b : value) {struct a} : bool :=\n  match a, b with\n  | VNull, VNull => true\n  | VBool x, VBool y => Bool.eqb x y\n  | VInt k x, VInt k' y => (int_id k =? int_id k') && Z.eqb x y\n  | VFlt k x, VFlt k' y => (flt_id k =? flt_id k') && (x =? y)\n  | VDec k s x, VDec k' s' y => (dec_id k =? dec_id k') && (s =? s') && Z.eqb x y\n  | VBinary x, VBinary y => beq x y\n  | VString x, VString y => beq x y\n  | VUuid x, VUuid y => beq x y\n  | VArray l, VArray l' => (fix go (l l' : list value) : bool := match l, l' with [] , [] => true | x :: r, y :: r' => veqb x y && go r r' | _, _ => false end) l l'\n  | VObject l, VObject l' => (fix go (l : list (bytes * value)) (l' : list (bytes * value)) : bool := match l, l' with [] , [] => true | (k, x) :: r, (k', y) :: r' => beq k k' && veqb x y && go r r' | _, _ => false end) l l'\n  | _, _ => false\n  end.")
+	c.Vm("Definition beqs (a b : bytes) : bool := beq a b.")
+	c.Vm("Definition enc_cases : list (value * bytes * bytes) := [\n  " + strings.Join(vmEnc, ";\n  ") + "].")
+	c.Vm("Definition enc_bad := filter (fun '(v, m, b) => negb (let '(m', b') := encode v in beqs m m' && beqs b b' && match decode m b with Some v' => veqb v' (canon v) | None => false end)) enc_cases.")
+	c.Vm("Definition shred_cases : list (schema * value) := [\n  " + strings.Join(vmShred, ";\n  ") + "].")
+	c.Vm("Definition shred_bad := filter (fun '(s, v) => negb (match reconstruct s (shred s v) with Some (Some v') => veqb (canon v') (canon v) | _ => false end && let '(m, f) := shred_bytes s v in match reconstruct_bytes s m f with Some (Some v') => veqb (canon v') (canon v) | _ => false end)) shred_cases.")
+	c.Vm("Definition mismatches := (map (fun '(v, _, _) => (SNone, v)) enc_bad) ++ shred_bad.")
+	c.Vm("Definition M := Eval vm_compute in ((length enc_cases + length shred_cases)%nat, mismatches).\nPrint M.")
+	c.Res.VmCases = len(vmEnc) + len(vmShred)
+	c.Note("float32 values are generated without signalling NaNs: variant.Value keeps a float32 as float64 and the conversion quiets them (hardware behaviour; stated assumption)")
+	c.Note("typed writes use only kinds with a Go-native mapping (variant.ValueOf); dates, times, *_ntz timestamps and decimals enter through raw writes")
+}
+
+func replayC19(c *core.Ctx, raw json.RawMessage) {
+	var head struct {
+		Mode  string `json:"mode"`
+		Tree  string `json:"tree"`
+		Meta  string `json:"meta"`
+		Value string `json:"value"`
+	}
+	if err := json.Unmarshal(raw, &head); err != nil {
+		c.Note("unreadable replay: %v", err)
+		return
+	}
+	switch head.Mode {
+	case "encode":
+		t, err := parseTree(head.Tree)
+		if err != nil {
+			c.Note("unreadable tree: %v", err)
+			return
+		}
+		checkEncode(c, t)
+		c.Case("replay/encode", head.Tree, true)
+	case "decode":
+		t, err := parseTree(head.Tree)
+		meta, e1 := hex.DecodeString(head.Meta)
+		val, e2 := hex.DecodeString(head.Value)
+		if err != nil || e1 != nil || e2 != nil {
+			c.Note("unreadable replay")
+			return
+		}
+		got, derr := goDecode(meta, val)
+		if derr != nil {
+			c.Violation("decode-rejects-conforming", derr.Error(), raw)
+		} else if got.canonText() != t.canonText() {
+			c.Violation("decode-conforming-differs", "got "+core.Trunc(got.canonText(), 300), raw)
+		}
+		c.Case("replay/decode", head.Tree, true)
+	case "file":
+		var fc fileCase
+		if err := json.Unmarshal(raw, &fc); err != nil {
+			c.Note("unreadable file case: %v", err)
+			return
+		}
+		checkFile(c, &fc)
+		c.Case("replay/file", string(raw), true)
+	default:
+		c.Note("replay mode %q is not replayable; rerun the check with the recorded seed", head.Mode)
+	}
+}
